@@ -239,6 +239,69 @@ func run(c *mon.Ctx) {
 			}
 		}
 	})
+	// the true header at every offset behind a prefix that holds false sync bytes only ({00,47}: AFC is always 00)
+	maxOff := c.N(800, 4000)
+	c.Exhaustive(fmt.Sprintf("true header at every offset 0..%d behind false-sync-only garbage x 4 reader kinds", maxOff), int64(4*(maxOff+1)))
+	c.StreamSeedless("header-at-offset", maxOff+1, func(off int, r *gen.Rand) {
+		s := make([]byte, off)
+		for k := range s {
+			if r.Chance(3) {
+				s[k] = 0x47
+			}
+		}
+		p := packet.Create(0x100+r.Intn(0x1000), packet.WithHasPayloadFlag)
+		s = append(s, p[:]...)
+		for kind := 0; kind < 4; kind++ {
+			checkOne(c, s, kind, r)
+		}
+		// bufio buffers at and around the packet size
+		for _, sz := range []int{187, 188, 189, 376, 1000} {
+			br := bufio.NewReaderSize(bytes.NewReader(s), sz)
+			o, err := packet.Sync(br)
+			rest, _ := io.ReadAll(br)
+			c.Eval(1)
+			want := refSync(s) // usually off; the last prefix bytes may form a plausible header with the packet's first bytes
+			if err != nil || o != int64(want) || !bytes.Equal(rest, s[want:]) {
+				c.Fail("sync:bufio-size-boundary", fmt.Sprintf("bufio(%d): first plausible header at offset %d behind false sync bytes: Sync returned %d, %v and left %d bytes (want offset %d and %d bytes)", sz, want, o, err, len(rest), want, len(s)-want),
+					wit{mon.Hex(s), fmt.Sprintf("bufio(%d)", sz), fmt.Sprintf("off=%d err=%v", o, err), fmt.Sprint("offset ", want)})
+				break
+			}
+		}
+		c.Class(fmt.Sprintf("at-offset/mod188=%d/windows=%d", off%188/47, off/188))
+	})
+	// very long prefixes (no limit on how far the search goes)
+	longs := []int{65535, 65536, 65537, 70000, 131072, 200001}
+	c.StreamSeedless("long-prefix", len(longs), func(i int, r *gen.Rand) {
+		off := longs[i]
+		s := make([]byte, off)
+		for k := range s {
+			if r.Chance(5) {
+				s[k] = 0x47
+			}
+		}
+		p := packet.Create(0x21, packet.WithHasPayloadFlag)
+		s = append(s, p[:]...)
+		for kind := 0; kind < 4; kind++ {
+			want := refSync(s)
+			var ps packet.PeekScanner
+			switch kind {
+			case 0:
+				ps = &sliceScanner{b: s}
+			case 1:
+				ps = bufio.NewReader(bytes.NewReader(s))
+			case 2:
+				ps = bufio.NewReaderSize(&chunked{bytes.NewReader(s), r}, 64)
+			default:
+				ps = bufio.NewReaderSize(bytes.NewReader(s), 65536)
+			}
+			o, err := packet.Sync(ps)
+			c.Eval(1)
+			if err != nil || o != int64(want) {
+				c.Fail("sync:long-prefix", fmt.Sprintf("a plausible header %d bytes into the stream: Sync returned %d, %v", want, o, err), wit{fmt.Sprintf("%d bytes of {00,47} then a packet", off), fmt.Sprint("kind ", kind), fmt.Sprintf("off=%d err=%v", o, err), fmt.Sprint("offset ", want)})
+			}
+		}
+		c.Class(fmt.Sprintf("long-prefix/%d", off))
+	})
 	// whole packets after garbage: the case real callers have
 	c.Stream("packets-after-garbage", c.N(3000, 3000000), func(i int, r *gen.Rand) {
 		g := r.Intn(400)
